@@ -23,6 +23,7 @@ def facts(text):
     depth = 0
     plain = [False] * (n + 2)
     para = [False] * (n + 2)
+    pdepth = [0] * (n + 2)
     pmarkup = [False] * (n + 2)
     cstack = []                      # open containers: [kind, block record or None]
     for ti, t in enumerate(toks):
@@ -61,6 +62,8 @@ def facts(text):
                 else:
                     setext[i + 1] = True
             body = _strip_containers(raw)
+            if depth > 0:
+                body = body.lstrip(" ")
             ind = max(len(_strip_containers(lines[i])) - len(_strip_containers(lines[i]).lstrip(" ")) for i in range(s, e)) if e > s else 0
             gap = 0
             if style == "atx":
@@ -106,6 +109,7 @@ def facts(text):
             mk = bool(inl is not None and any(c.type not in ("text", "softbreak") for c in (inl.children or [])))
             for i in range(t.map[0], t.map[1]):
                 para[i + 1] = True
+                pdepth[i + 1] = depth
                 pmarkup[i + 1] = mk or (depth > 0 and i > t.map[0])      # continuation lines inside containers: indentation is relative
             if depth == 0:
                 for i in range(t.map[0], t.map[1]):
@@ -129,7 +133,8 @@ def facts(text):
     L = []
     for i, l in enumerate(lines, 1):
         trail = len(l) - len(l.rstrip(" "))
-        body = _strip_containers(l) if para[i] else l
+        body = _strip_containers(l) if para[i] and pdepth[i] > 0 else l
+        unsure18 = para[i] and pdepth[i] > 0 and body == l          # inside a container but the markers are on an earlier line
         m18 = re.match(r"^ {0,3}(#+)(.?)", body)
         hashes = len(m18.group(1)) if m18 else 0
         nxt = m18.group(2) if m18 else ""
@@ -137,7 +142,7 @@ def facts(text):
         L.append({"len": len(l), "trail": trail, "tabs": l.count("\t"), "blank": not l.strip(" \t"),
                   "cblank": bool(l.strip(" \t")) and not l.replace(">", "").strip(" \t"),
                   "code": code[i], "html": html[i], "heading": heading[i], "setext": setext[i], "fenceline": fenceline[i], "inlist": inlist[i], "plain": plain[i],
-                  "para": para[i], "pmarkup": pmarkup[i], "hashes": hashes, "afterhash": afterhash, "endshash": l.rstrip(" \t").endswith("#") and hashes < len(l.strip(" \t")),
+                  "para": para[i], "pmarkup": pmarkup[i] or unsure18, "hashes": hashes, "afterhash": afterhash, "endshash": l.rstrip(" \t").endswith("#") and hashes < len(l.strip(" \t")),
                   "ws": [k + 1 for k, ch in enumerate(l) if ch in " \t"]})
     for b in B:
         if b["k"] in ("ul", "ol", "bq", "li"):
@@ -155,10 +160,11 @@ def _b(k, mp, **kw):
 
 
 def _strip_containers(line):
-    """remove block quote markers and list markers in front of a leaf block's first line"""
+    """remove the container prefixes (block quote markers, list markers, the indentation in front of them) of a line that is
+    known to start a leaf block"""
     s = line
     while True:
-        m = re.match(r"^( {0,3})(>[ ]?|[-+*][ \t]+|\d{1,9}[.)][ \t]+)", s)
+        m = re.match(r"^[ \t]*(>[ ]?|[-+*][ \t]+|\d{1,9}[.)][ \t]+)", s)
         if not m:
             return s
         s = s[m.end():]
